@@ -32,6 +32,7 @@ type SpecP struct {
 	R         int32   `json:"r"`
 	Slots     []int32 `json:"slots,omitempty"`
 	Parallel  bool    `json:"parallel,omitempty"`
+	PolicyOmitted bool `json:"policy_omitted,omitempty"` // podManagementPolicy left empty (only when !Parallel)
 	Strategy  int     `json:"strategy"` // 0 RollingUpdate{partition}, 1 RollingUpdate with nil block, 2 OnDelete, 3 OnDelete with a left-over rollingUpdate{partition} block (the CRD admits it), 4 type omitted + rollingUpdate{partition}, 5 type and block omitted
 	Partition int32   `json:"partition,omitempty"`
 	Limit     int32   `json:"limit"`
@@ -46,7 +47,7 @@ type SpecP struct {
 // PodP describes one constructed pod of the initial population.
 type PodP struct {
 	Ord   int  `json:"ord"`
-	Phase int  `json:"phase"` // 0 Pending unscheduled, 1 Pending scheduled, 2 Running not ready, 3 Running ready, 4 Failed, 5 Succeeded
+	Phase int  `json:"phase"` // 0 Pending unscheduled, 1 Pending scheduled, 2 Running not ready, 3 Running ready, 4 Failed, 5 Succeeded, 6 Running Ready=Unknown, 7 phase Unknown (Ready still True), 8 Running without a Ready condition
 	Term  bool `json:"term,omitempty"`
 	// Rev: index into the template history whose revision the pod carries; -1 = unknown revision name; -2 = no label
 	Rev    int  `json:"rev"`
@@ -228,6 +229,9 @@ func applySpec(set *asv1.StatefulSet, s SpecP) {
 		set.Spec.PodManagementPolicy = asv1.ParallelPodManagement
 	} else {
 		set.Spec.PodManagementPolicy = asv1.OrderedReadyPodManagement
+		if s.PolicyOmitted {
+			set.Spec.PodManagementPolicy = "" // the CRD does not default it; "Default is OrderedReady" (types.go)
+		}
 	}
 	switch s.Strategy {
 	case 0:
@@ -368,8 +372,25 @@ func setPhase(p *corev1.Pod, phase int) {
 	case 5:
 		p.Status.Phase = corev1.PodSucceeded
 		p.Spec.NodeName = "node"
+	case 6:
+		// the kubelet stopped reporting: Running, Ready=Unknown
+		p.Status.Phase = corev1.PodRunning
+		p.Spec.NodeName = "node"
+		ready = corev1.ConditionUnknown
+	case 7:
+		// node lost: phase Unknown although the last Ready condition still says True
+		p.Status.Phase = corev1.PodUnknown
+		p.Spec.NodeName = "node"
+		ready = corev1.ConditionTrue
+	case 8:
+		// Running, all containers ready, but no Ready condition reported (yet)
+		p.Status.Phase = corev1.PodRunning
+		p.Spec.NodeName = "node"
+		p.Status.Conditions = []corev1.PodCondition{{Type: corev1.PodScheduled, Status: corev1.ConditionTrue}, {Type: corev1.ContainersReady, Status: corev1.ConditionTrue}}
+		return
 	}
-	p.Status.Conditions = []corev1.PodCondition{{Type: corev1.PodReady, Status: ready}}
+	// the Ready condition is not the first one of the list
+	p.Status.Conditions = []corev1.PodCondition{{Type: corev1.PodScheduled, Status: corev1.ConditionTrue}, {Type: corev1.PodInitialized, Status: corev1.ConditionTrue}, {Type: corev1.PodReady, Status: ready}}
 }
 
 // ---------------------------------------------------------------------------------------------
@@ -1027,8 +1048,8 @@ func genPodsSized(rt *rapid.T, histLen int, orphans, big bool) []PodP {
 			continue
 		}
 		p := PodP{Ord: ord}
-		p.Phase = rapid.SampledFrom([]int{3, 3, 3, 3, 3, 2, 1, 0, 4, 5}).Draw(rt, "phase")
-		if p.Phase >= 1 && p.Phase <= 3 {
+		p.Phase = rapid.SampledFrom([]int{3, 3, 3, 3, 3, 3, 3, 3, 3, 3, 2, 2, 1, 1, 0, 0, 4, 4, 5, 5, 6, 7, 8}).Draw(rt, "phase")
+		if (p.Phase >= 1 && p.Phase <= 3) || p.Phase >= 6 {
 			p.Term = rapid.IntRange(0, 7).Draw(rt, "term") == 0
 		}
 		p.Rev = rapid.SampledFrom([]int{histLen - 1, histLen - 1, histLen - 1, 0, rapid.IntRange(0, histLen-1).Draw(rt, "revIdx"), -1}).Draw(rt, "rev")
